@@ -59,6 +59,9 @@ type Case struct {
 	// LevelsFromDirection: run levels were derived from the shaped runs' directions only
 	// (real paragraphs): the true UBA levels may be deeper.
 	LevelsFromDirection bool `json:"levels_from_direction,omitempty"`
+	// Glyphless: one run lost all its glyphs (a run of deleted default ignorables). Such
+	// runs cannot be cut and are outside the modelled input space: only totality is judged.
+	Glyphless bool `json:"glyphless,omitempty"`
 }
 
 const (
